@@ -28,6 +28,9 @@ M = [
     ("C04-h4-min-disk-space-ignored", "C04", "cmd/thermal-recorder/cptvfilerecorder.go", "	} else if !enoughSpace {", "	} else if !enoughSpace && cfr.minDiskSpace == 0 {"),
     ("C05-h3-activate-inverted", "C05", "cmd/thermal-recorder/main.go", "	if conf.Throttler.Activate {", "	if !conf.Throttler.Activate {"),
     ("C06-h4-minclip-from-minsecs-only", "C06", "cmd/thermal-recorder/main.go", "minRecordingLength := conf.Recorder.MinSecs + conf.Recorder.PreviewSecs", "minRecordingLength := conf.Recorder.MinSecs"),
+    ("C06-h5-daemon-passes-no-listener", "C06", "cmd/thermal-recorder/main.go", "minRecordingLength, new(throttle.ThrottledEventRecorder), headerInfo", "minRecordingLength, nil, headerInfo"),
+    ("C13-h6-bad-frame-report-skipped-sometimes", "C13", "cmd/thermal-recorder/main.go", "err.(*lepton3.BadFrameErr); isBadFrame {", "err.(*lepton3.BadFrameErr); isBadFrame && time.Now().UnixNano()%3 != 0 {"),
+    ("C13-h7-no-restart-request", "C13", "cmd/thermal-recorder/main.go", "			leptondController.RestartCamera()\n", ""),
     ("C05-h1-take-ignored", "C05", "throttle/throttled_recorder.go", "	if throttler.bucket.TakeAvailable(1) > 0 {", "	if throttler.bucket.TakeAvailable(1) >= 0 {"),
     ("C05-h2-double-bucket", "C05", "throttle/throttled_recorder.go", "bucketFrames := int64(config.BucketSize.Seconds()) * int64(camera.FPS())", "bucketFrames := 2 * int64(config.BucketSize.Seconds()) * int64(camera.FPS())"),
     ("C06-h1-event-per-suppressed-frame", "C06", "throttle/throttled_recorder.go", "		if !throttler.recording {\n			return nil\n		}", "		if !throttler.recording {\n			throttler.listener.WhenThrottled()\n			return nil\n		}"),
